@@ -300,7 +300,8 @@ class Simulator(EventProducer, SimulatorInterface, Generic[TIME]):
                 "Did you call super.__init__(...) in the model constructor?")
         if not isinstance(replication, ReplicationInterface):
             raise DSOLError(f"replication {replication} not valid")
-        if self.is_starting_or_running():
+        if (self.is_starting_or_running() 
+                or self._run_state == RunState.STOPPING):
             raise DSOLError("cannot initialize a running simulation")
         if self.__worker is not None:
             self.cleanup()
@@ -561,7 +562,9 @@ class DEVSSimulator(Simulator[TIME], Generic[TIME]):
     
     def initialize(self, model:ModelInterface, replication:ReplicationInterface):
         # this check HAS to be done before clearing the eventlist
-        if self.is_starting_or_running():
+        # (in RunState.STOPPING the run() thread is still running)
+        if (self.is_starting_or_running() 
+                or self._run_state == RunState.STOPPING):
             raise DSOLError("cannot initialize a running simulation")
         self._eventlist.clear()
         super().initialize(model, replication)
